@@ -89,6 +89,18 @@ SliceClauses(e) ==
             /\ NoDuplicate(q.sparse))>>,
      <<"drift:processSlice", All(e.obs.q, LAMBDA q :
           /\ ProcessSlice(q.rs, c.n) = q.rnorm /\ ProcessSlice(q.cs, c.n) = q.cnorm)>> >>
+  \o (IF "q_oob" \in DOMAIN e.obs
+        \* bounds beyond the table and reversed ranges "resolved as for arrays": what ArraySelection selects (known finding F29)
+        THEN << <<"outOfRangeBoundsAsArrays", All(e.obs.q_oob, LAMBDA q :
+                   LET R == ArraySelection(q.rs, c.n)
+                       C == ArraySelection(q.cs, c.n)
+                       r0 == IF R = {} THEN 0 ELSE Min(R)
+                       c0 == IF C = {} THEN 0 ELSE Min(C)
+                   IN /\ q.err = ""
+                      /\ q.shape = <<Cardinality(R), Cardinality(C)>>
+                      /\ (R = {} \/ C = {} \/ Range([j \in DOMAIN q.sparse |-> <<q.sparse[j][1] + r0, q.sparse[j][2] + c0, q.sparse[j][3]>>])
+                                                = SubBlockRecords(c, <<r0, r0 + Cardinality(R), c0, c0 + Cardinality(C)>>)))>> >>
+        ELSE <<>>)
 
 -----------------------------------------------------------------------------
 (* rq.balanced: balanced reads (C12); weights W[name] = exponents, -1 = NaN; values scaled by 2^SC *)
